@@ -116,9 +116,9 @@ def spec(tier, seed):
         smallD = set(shapes.shapes_D_upto(1, 1))
         shM = shapes.shapes_H_upto(3, 2) + shapes.shapes_H(2, 3)
     else:
-        shH = shapes.shapes_H_upto(3, 2) + shapes.shapes_H(2, 3)[::2]
+        shH = shapes.shapes_H_upto(3, 2) + shapes.shapes_H(2, 3) + shapes.shapes_H(3, 3)[::4]
         smallH = set(shapes.shapes_H_upto(2, 2))
-        shD = shapes.shapes_D_upto(2, 1) + shapes.shapes_D(1, 2) + shapes.shapes_D(2, 2)[::3]
+        shD = shapes.shapes_D_upto(2, 2)
         smallD = set(shapes.shapes_D_upto(1, 1) + shapes.shapes_D(2, 1)[::2])
         shM = shapes.shapes_H_upto(3, 3) + shapes.shapes_H(4, 2)
     units = []
